@@ -431,24 +431,32 @@ func (r *vRun) observe(cf *cacheFile, path string, row *vRow) {
 	row.Obs = []vObs{}
 	for i := 0; i < 3; i++ {
 		o := vObs{Sizes: [][2]int{}}
-		o.C = cf.Contains(r.rids[i])
-		data, cb, sb, err := cf.data(r.rids[i], r.t0[i])
-		if err != nil {
-			o.Err = "Data: " + err.Error()
-		}
-		o.A = data != nil
-		o.Fp = vFpData(data)
-		o.Cb, o.Sb = cb, sb
-		sd, sizes, scb, ssb, ok, err := cf.DataForSearch(r.rids[i])
-		if err != nil {
-			o.Err += " DataForSearch: " + err.Error()
-		}
-		o.Ok = ok
-		if sizes != nil {
-			o.Sizes = sizes
-		}
-		o.Cfp, o.Sfp = vHash(sd[0]), vHash(sd[1])
-		o.Scb, o.Ssb = scb, ssb
+		func() {
+			// a read that panics (a record that does not parse) is an answer like an error: recorded, judged by the specification
+			defer func() {
+				if p := recover(); p != nil {
+					o.Err += fmt.Sprintf(" panic: %v", p)
+				}
+			}()
+			o.C = cf.Contains(r.rids[i])
+			data, cb, sb, err := cf.data(r.rids[i], r.t0[i])
+			if err != nil {
+				o.Err = "Data: " + err.Error()
+			}
+			o.A = data != nil
+			o.Fp = vFpData(data)
+			o.Cb, o.Sb = cb, sb
+			sd, sizes, scb, ssb, ok, err := cf.DataForSearch(r.rids[i])
+			if err != nil {
+				o.Err += " DataForSearch: " + err.Error()
+			}
+			o.Ok = ok
+			if sizes != nil {
+				o.Sizes = sizes
+			}
+			o.Cfp, o.Sfp = vHash(sd[0]), vHash(sd[1])
+			o.Scb, o.Ssb = scb, ssb
+		}()
 		row.Obs = append(row.Obs, o)
 	}
 	row.Count = cf.StreamCount()
